@@ -14,6 +14,7 @@ struct RunOut {
 void addProbe(std::set<std::string> &probes, const std::string &p) {
     probes.insert(p);
 }
+bool argDirty(const Op &op) { return op.ints.size() > 2 && op.ints[2] != 0; }
 
 // reach probes derived from one execution (DESIGN.md §4.1 "Reach probes")
 void probesFor(const Case &c, const ExecReport &rep, int64_t nBenign,
@@ -75,6 +76,8 @@ void probesFor(const Case &c, const ExecReport &rep, int64_t nBenign,
                 addProbe(probes, "polygonToCells.E_FAILED-with-3-blocks-live");
             if (c.op.loops.size() > 1 && rc == 0)
                 addProbe(probes, "polygonToCells.with-holes");
+            if (n >= 3 && rc == E_FAILED && argDirty(c.op))
+                addProbe(probes, "polygonToCells.E_FAILED-in-fill-loop-with-3-blocks-live");
         }
         if (op.fn == FN_polygonToCellsExperimental) {
             if (rc == E_MEMORY_BOUNDS && n == 1)
@@ -108,6 +111,7 @@ static bool stepC17(const Case &c, const Result &ref, RunStats &st,
     chain.add(rep.res.digest());
     chain.add(rep.heap.log.h);
     for (int k = 1; k < F_KINDS; k++) st.fired[k] += rep.heap.fired[k];
+    st.bypassAllocs += rep.heap.bypassAllocs;
     if (rep.heap.failed > 0) {
         st.faultedExecs++;
         // distinct fault scenario: function, site sequence, first failing
